@@ -109,15 +109,23 @@ def decay_cases(ctx, rnd, n):
         b = get_particle("B%d" % k, J=J(t[1]), P=P[1])
         c = get_particle("C%d" % k, J=J(t[2]), P=P[2])
         base = rule(t, P[0], P[1], P[2], brk, None)
-        mode = rnd.choice(["none", "l_list", "ls_list"])
+        mode = rnd.choice(["none", "l_list", "ls_list", "ls_wild", "ls_wild", "both"])
         kw = {}
         l_opt, ls_opt = "None", "None"
-        if mode == "l_list":
+        if mode in ("l_list", "both"):
             ll = sorted(set(rnd.randrange(0, 6) for _ in range(rnd.randrange(1, 4))))
             kw["l_list"] = ll
             l_opt = "(Some [%s])" % ";".join(map(str, ll))
-        elif mode == "ls_list" and base:
+        if mode == "ls_list" and base:
             u = rnd.sample(base, rnd.randrange(1, len(base) + 1))
+            kw["ls_list"] = [[l, J(s2)] for l, s2 in u]
+            ls_opt = "(Some [%s])" % ";".join("(%d,%d)" % p for p in u)
+        elif mode in ("ls_wild", "both"):
+            # whatever a user may write: allowed couplings in any order, repeated ones, couplings the triangle rules or
+            # parity forbid (the offered list must still be exactly allowed-and-listed, each once: /repo 47acb11)
+            par = (t[1] + t[2]) % 2
+            pool = list(base) + [(rnd.randrange(0, 7), 2 * rnd.randrange(0, 5) + par) for _ in range(3)]
+            u = [rnd.choice(pool) for _ in range(rnd.randrange(1, 6))]
             kw["ls_list"] = [[l, J(s2)] for l, s2 in u]
             ls_opt = "(Some [%s])" % ";".join("(%d,%d)" % p for p in u)
         try:
@@ -219,6 +227,48 @@ def cgmatrix_cases(ctx, rnd, n):
     return cases
 
 
+def qr_selector_regression(ctx, rnd, n):
+    """ls_selector: qr (the library's own device for "number of couplings = number of independent helicity amplitudes" when
+    a daughter has a restricted helicity list, e.g. a photon): the selected couplings must be independent and span what all
+    allowed couplings span on the kept helicities.  Direct test on the implementation (ranks by numpy SVD of the library's
+    numeric coupling matrix, which the cg-matrix layer ties to the exact model); regression of hunt2 C13 finding 2
+    (/repo 5241796: float spins left round-off in the sympy QR, so no half-integer decay ever lost a coupling)."""
+    import contextlib, io
+    from tf_pwa.amp import get_particle, get_decay
+    for k in range(n):
+        half = k % 2 == 0
+        jb2 = rnd.choice([2, 4])  # the restricted daughter: spin 1 or 2 with helicities +-J only
+        jc2 = rnd.choice([1, 3]) if half else rnd.choice([0, 2])
+        ja2 = rnd.choice([1, 3, 5]) if half else rnd.choice([0, 2, 4])
+        P = [rnd.choice((1, -1)) for _ in range(3)]
+        brk = rnd.random() < 0.5
+        def mk(tag, **kw):
+            a = get_particle("Aq%d%s" % (k, tag), J=J(ja2), P=P[0])
+            b = get_particle("Bq%d%s" % (k, tag), J=J(jb2), P=P[1], spins=[-J(jb2), J(jb2)])
+            c = get_particle("Cq%d%s" % (k, tag), J=J(jc2), P=P[2])
+            return get_decay(a, [b, c], p_break=brk, **kw)
+        try:
+            d0 = mk("n")
+            full = d0.get_ls_list()
+            with contextlib.redirect_stdout(io.StringIO()):
+                d1 = mk("q", ls_selector="qr")
+                sel = d1.get_ls_list()
+            M0 = np.array(d0.get_cg_matrix()).reshape(len(full), -1)
+            M1 = np.array(d1.get_cg_matrix()).reshape(len(sel), -1)
+        except Exception:
+            ctx.count("qr_selector_declined")
+            continue
+        ctx.evaluations += 1
+        ctx.count("qr_selector_half_integer" if half else "qr_selector_integer")
+        r0 = int(np.linalg.matrix_rank(M0, tol=1e-9)) if len(full) else 0
+        r1 = int(np.linalg.matrix_rank(M1, tol=1e-9)) if len(sel) else 0
+        if not (len(sel) == r1 == r0):
+            ctx.fail("qr_selector", "qr%d" % k, "ls_selector qr keeps %d couplings, rank of their map %d, rank of all allowed couplings %d" % (len(sel), r1, r0),
+                     inp={"2j": [ja2, jb2, jc2], "P": P, "p_break": brk}, site="ls_selector_qr", fingerprint="qr_rank",
+                     failing_input={"decay": "%s^%d -> %s^%d (helicities +-%s only) %s^%d, p_break=%s, ls_selector=qr" % (J(ja2), P[0], J(jb2), P[1], J(jb2), J(jc2), P[2], brk),
+                                    "allowed": str(full), "selected": str(sel), "rank_selected": r1, "rank_allowed": r0})
+
+
 def run(ctx):
     rnd = random.Random(ctx.seed * 1000003 + 13)
     ctx.rule = ("exhaustive enumeration of (2ja,2jb,2jc) x 11 parity triples (incl. None) x p_break x ca in {None,+1,-1}; "
@@ -259,6 +309,7 @@ def run(ctx):
             ctx.fail("get_ls_list", cid, "HelicityDecay.get_ls_list differs from model (%s)" % res[cid], inp=m, site="HelicityDecay.get_ls_list", fingerprint="decay",
                      failing_input={"call": "get_decay(A,[B,C],...).get_ls_list()", **{k: str(v) for k, v in m.items()}})
     ctx.sample({"decay_case": dc[0][1]})
+    qr_selector_regression(ctx, random.Random(ctx.seed * 1000003 + 1313), 16 if ctx.tier == "quick" else 120)
     common.coq_make(["Amp/Coupling.vo"])  # the exact radical model of the coupling matrix
     cg = cgmatrix_cases(ctx, rnd, 40 if ctx.tier == "quick" else 108)
     res = common.coq_cases(ctx, "ls_cgm", "From Coq Require Import ZArith List Bool QArith.\nFrom TFV Require Import Rot.Wigner Rot.CG Amp.Coupling.\nImport ListNotations.\nOpen Scope Z_scope.\n",
